@@ -1208,6 +1208,7 @@ def _c18_registry(add, tier, TO):
         add("C18", name, qtier, lambda ctx: fifo_query(ctx, name, kind, N, k, threads, "linearizable", slack, TO, drain=False))
     lin("c18_queue_atomic_lin_p_cc_n2_k1", "quick", "AtomicZeroCopy", 2, 1, [["send"], ["recv", "recv"]])
     lin("c18_queue_fullsync_lin_p_cc_n2_k1", "quick", "FullSyncZeroCopy", 2, 1, [["send"], ["recv", "recv"]])
+    lin("c18_queue_atomic_lin_c_pc_n2_k1", "thorough", "AtomicZeroCopy", 2, 1, [["recv"], ["send", "recv"]])       # a dequeue racing an enqueue+dequeue pair
     lin("c18_queue_atomic_lin_pp_c_c_n2_k1", "thorough", "AtomicZeroCopy", 2, 1, [["send", "send"], ["recv"], ["recv"]])
 
 
